@@ -52,9 +52,7 @@ m = {
     "notes": "All checks are decided by property-based testing / fuzzing. check.py exit codes: 0 held, 1 VIOLATION, 2 infrastructure trouble (never a verdict). VERIF_SEED selects the rapid seeds.",
 }
 json.dump(m, open(os.path.join(ROOT, "MANIFEST.json"), "w"), indent=1)
-try:
-    import jsonschema
-    jsonschema.validate(m, json.load(open("/root/.vp/MANIFEST.schema.json")))
-    print("MANIFEST.json valid: %d checks, %d not claimed" % (len(checks), len(na)))
-except ImportError:
-    print("jsonschema missing; not validated")
+sys.path.insert(0, ROOT)
+from check import validate_json  # noqa
+msg = validate_json(os.path.join(ROOT, "MANIFEST.json"), "/root/.vp/MANIFEST.schema.json")
+print("MANIFEST.json %s: %d checks, %d not claimed" % ("INVALID " + msg if msg else "valid", len(checks), len(na)))
